@@ -229,7 +229,10 @@ func c16(r *rand.Rand, tier string, tr *trace.Buf) {
 	xsigEmpty, _ := xk.Sign([]byte{})
 	xflipEmpty := dup(xsigEmpty)
 	xflipEmpty[60] ^= 2
-	xtrips := []trip{{"valid-non-ascii-message", []byte(xmsgHi), xsigHi, xpk[:]}, {"wrong-message-utf8-of-the-byte", []byte("\xc3\xa9"), xsigE9, xpk[:]},
+	// the last leaf of the tree (index 2^h - 1): made last, it exhausts the key
+	xk.SetIndex(15)
+	xsigLast, _ := xk.Sign([]byte("last leaf"))
+	xtrips := []trip{{"valid-last-leaf", []byte("last leaf"), xsigLast, xpk[:]}, {"valid-non-ascii-message", []byte(xmsgHi), xsigHi, xpk[:]}, {"wrong-message-utf8-of-the-byte", []byte("\xc3\xa9"), xsigE9, xpk[:]},
 		{"valid-single-high-byte", []byte("\xe9"), xsigE9, xpk[:]},
 		{"valid-empty-message", []byte{}, xsigEmpty, xpk[:]}, {"flipped-signature-empty-message", []byte{}, xflipEmpty, xpk[:]},
 		{"wrong-message-empty", []byte{}, xsig, xpk[:]},
